@@ -153,14 +153,49 @@ def check(ctx) -> Result:
             "K-target-and-placement", "_add_two_qubit_gate", two.site(), two.qualname, "cx target = q1 - min(q0, q1); gate placed on the lower qubit's first mode after making the qubits adjacent", "target / placement computation of two-qubit gates changed", construct="two-qubit placement")
     res.frozen("TWO_QUBIT_GATES_MAP['swap'](self.modes[q0],self.modes[q1]),0" in t, "K-target-and-placement", "_add_two_qubit_gate:swap", two.site(), two.qualname, "swap acts on the mode pairs of the two qubits, placed at mode 0", "swap placement changed", construct="swap")
     three = Q.methods["_add_three_qubit_gate"]
-    cfg = ctx.cfg(three)
-    dom = cfg.dominators()
-    from ..cfg import own_exprs
-    addn = [n for n in cfg.nodes if n.ast is not None and n.kind == "stmt" and any(isinstance(x, ast.Call) and src(x.func) == "self.circuit.add" for e in own_exprs(n) for x in ast.walk(e))]
-    g1 = [n for n in cfg.nodes if n.kind == "test" and src(n.ast.test) == "not post_selection" and any(isinstance(b, ast.Raise) for b in n.ast.body)]
-    g2 = [n for n in cfg.nodes if n.kind == "test" and src(n.ast.test).replace(" ", "") == "max(all_qubits)-min(all_qubits)!=2" and any(isinstance(b, ast.Raise) for b in n.ast.body)]
-    res.add(bool(addn) and bool(g1) and all(g1[0].id in dom[a.id] for a in addn), "D-three-qubit-refusals", "no post-selection", three.site(), three.qualname, "three-qubit gates are refused unless this gate is post-selected", "three-qubit gates are added without post-selection", construct="not post_selection")
-    res.add(bool(addn) and bool(g2) and all(g2[0].id in dom[a.id] for a in addn), "D-three-qubit-refusals", "adjacency", three.site(), three.qualname, "non-adjacent three-qubit gates are refused", "non-adjacent three-qubit gates are no longer refused", construct="adjacency")
+    from ..guards import Lit as _Lit, Normaliser as _Norm, facts_at as _facts_at
+    from ..inline import inlined as _inlined
+    fn3 = _inlined(three.node)
+    par3 = {c_: n_ for n_ in ast.walk(fn3) for c_ in ast.iter_child_nodes(n_)}
+
+    def _t3(e):
+        if isinstance(e, ast.Constant):
+            return repr(e.value)
+        if isinstance(e, ast.Call) and isinstance(e.func, ast.Name) and e.func.id in ("max", "min"):
+            a0 = e.args[0] if len(e.args) == 1 else None
+            if isinstance(a0, ast.Name):
+                ds_ = [a_.value for a_ in ast.walk(fn3) if isinstance(a_, ast.Assign) and len(a_.targets) == 1 and src(a_.targets[0]) == a0.id]
+                if len(ds_) == 1:
+                    a0 = ds_[0]
+            args = a0.elts if isinstance(a0, (ast.List, ast.Tuple)) else e.args
+            return f"{e.func.id}({','.join(sorted(src(a_) for a_ in args))})"
+        if isinstance(e, ast.BinOp) and isinstance(e.op, ast.Sub):
+            l_, r_ = _t3(e.left), _t3(e.right)
+            if l_ and r_:
+                return f"{l_}-{r_}"
+        return None
+
+    adds = [c_ for c_ in ast.walk(fn3) if isinstance(c_, ast.Call) and src(c_.func) == "self.circuit.add"]
+    qs = [p_ for p_ in three.params() if p_.startswith("q")]
+    span = f"max({','.join(sorted(qs))})-min({','.join(sorted(qs))})"
+    if not adds:
+        res.frozen(False, "D-three-qubit-refusals", "three-qubit gate", three.site(), three.qualname, "", "insertion of the three-qubit gate (self.circuit.add) not recognised", construct="")
+    for c_ in adds:
+        st_ = c_
+        while not isinstance(st_, ast.stmt):
+            st_ = par3[st_]
+        fa = _facts_at(fn3, st_, _Norm(_t3)) or []
+        units = [next(iter(f_)) for f_ in fa if len(f_) == 1]
+        ps_ok = any(l_.op == "truthy" and l_.a == "post_selection" for l_ in units)
+        res.add(ps_ok, "D-three-qubit-refusals", "no post-selection", three.site(c_), three.qualname, "three-qubit gates are refused unless this gate is post-selected", "three-qubit gates are added without post-selection", construct="not post_selection")
+        adj_ok = any(l_.op == "==" and {l_.a, l_.b} == {"2", span} for l_ in units)
+        other_eq = any(l_.op == "==" and "2" in (l_.a, l_.b) for l_ in units)
+        if adj_ok:
+            res.ok("D-three-qubit-refusals", "adjacency", three.site(c_), three.qualname, "non-adjacent three-qubit gates are refused (max - min == 2 established)")
+        elif other_eq:
+            res.frozen(False, "D-three-qubit-refusals", "adjacency", three.site(c_), three.qualname, "", "an adjacency test is made but not in the recognised form max(q) - min(q) == 2", construct="adjacency")
+        else:
+            res.bad("D-three-qubit-refusals", "adjacency", three.site(c_), three.qualname, "non-adjacent three-qubit gates are no longer refused (no fact max(q) - min(q) == 2 holds where the gate is added); established: " + "; ".join(" or ".join(map(str, f_)) for f_ in fa[:6]), construct="adjacency")
     t3 = src(three.node).replace(" ", "")
     res.frozen("target=q2-min(all_qubits)" in t3 and "add_mode=self.modes[min(all_qubits)][0]" in t3 and "all_qubits=[q0,q1,q2]" in t3, "K-target-and-placement", "_add_three_qubit_gate", three.site(), three.qualname, "ccx target = q2 - min(qubits); placed on the lowest qubit's first mode", "three-qubit target / placement changed", construct="three-qubit placement")
     # qubit -> modes and single-qubit placement
